@@ -481,7 +481,7 @@ Qed.
 Lemma placed_inv_b_spec st : placed_inv_b st = true <-> placed_Inv st.
 Proof. unfold placed_inv_b, placed_Inv. rewrite forallb_forall, Forall_forall. tauto. Qed.
 
-Lemma page_ok_none m tag u : page_okP m (mkPage None tag u).
+Lemma page_ok_none m tag u n : page_okP m (mkPage None tag u n).
 Proof. intros h H; discriminate. Qed.
 
 Lemma seg_placed_extend old new s : arenas_extend old new -> seg_placed old s = true -> seg_placed new s = true.
@@ -649,12 +649,21 @@ Proof.
   apply N.eqb_eq in H1, H2, H4. apply Z.eqb_eq in H3. apply eqb_prop in H5. congruence.
 Qed.
 
-Lemma page_free_Inv st sid k n : Inv st -> Inv (page_free st sid k n).
+Lemma page_free_Inv st sid k : Inv st -> Inv (page_free st sid k).
 Proof.
   intros HI. apply Inv_update; [exact HI|]. intros s s' _ Hg.
   destruct (s_owner s =? 0); [intros H; inversion H; subst; exact Hg|].
   destruct (nthN (s_pages s) k); [|intros H; inversion H; subst; exact Hg].
   apply good_settle. apply good_set_pages; [exact Hg|]. apply Forall_remove_nth, good_pages with (1 := Hg).
+Qed.
+
+Lemma coalesce_Inv st sid i j : Inv st -> Inv (coalesce st sid i j).
+Proof.
+  intros HI. apply Inv_update; [exact HI|]. intros s s' _ Hg.
+  destruct (nthN (s_free s) i); [|intros H; inversion H; subst; exact Hg].
+  destruct (nthN (s_free s) j); [|intros H; inversion H; subst; exact Hg].
+  destruct (i =? j); intros H; inversion H; subst; [exact Hg|].
+  apply good_set_pages; [exact Hg|]. apply good_pages with (1 := Hg).
 Qed.
 
 Lemma page_abandon_Inv st sid k : Inv st -> Inv (page_abandon st sid k).
@@ -667,7 +676,7 @@ Qed.
 
 Lemma Forall_drop_or_abandon m (keep : page -> bool) pages :
   Forall (page_okP m) pages ->
-  Forall (page_okP m) (flat_map (fun p => if keep p then [p] else (if p_used p then [mkPage None (p_tag p) true] else [])) pages).
+  Forall (page_okP m) (flat_map (fun p => if keep p then [p] else (if p_used p then [mkPage None (p_tag p) true (p_slices p)] else [])) pages).
 Proof.
   intros H. apply Forall_flat_map. revert H. apply Forall_impl. intros p Hp.
   destruct (keep p); [constructor; [exact Hp|constructor]|].
@@ -687,6 +696,13 @@ Proof.
   intros HI. apply Inv_update; [exact HI|]. intros s s' _ Hg H. inversion H; subst; clear H.
   apply good_set_pages; [exact Hg|]. apply Forall_map_nth; [apply good_pages with (1 := Hg)|].
   intros x Hx h Hh. apply Hx. exact Hh.
+Qed.
+
+Lemma block_alloc_Inv st h sid k : Inv st -> Inv (block_alloc st h sid k).
+Proof.
+  intros HI. apply Inv_update; [exact HI|]. intros s s' _ Hg H. inversion H; subst; clear H.
+  apply good_set_pages; [exact Hg|]. apply Forall_map_nth; [apply good_pages with (1 := Hg)|].
+  intros x Hx. destruct (page_of_heap h x); [|exact Hx]. intros h' Hh. apply Hx. exact Hh.
 Qed.
 
 Lemma thread_done_Inv st tid : Inv st -> Inv (thread_done st tid).
@@ -880,30 +896,106 @@ Qed.
 Lemma heap_new_Inv st tid aid tag : Inv st -> Inv (fst (heap_new st tid aid tag)).
 Proof. intros [Hw Hg]. unfold heap_new. cbn. split; assumption. Qed.
 
-(* bound_inv_preserved, every operation: the adoption paths under tag_safe of the adopting heap *)
-Theorem step_Inv_partial : forall st o,
-  tags_uniform st -> Inv st -> Inv (step st o).
+(* the heap on whose behalf an operation adopts abandoned segments (mi_segment_reclaim is reached only
+   through these three operations) *)
+Definition op_adopter (o : op) : option N :=
+  match o with
+  | OAttemptReclaim hid _ _ _ => Some hid
+  | OTryReclaim hid _ => Some hid
+  | OReclaimAll hid => Some hid
+  | _ => None
+  end.
+
+(* bound_inv_preserved, every operation, every heap tag: the only hypothesis is tag_safe of the
+   adopting heap of an adoption step (nothing for the other 13 operations) *)
+Theorem step_Inv_adopter : forall st o,
+  (forall hid h, op_adopter o = Some hid -> find_heap st hid = Some h -> tag_safe (st_heaps st) h) ->
+  Inv st -> Inv (step st o).
 Proof.
-  intros st o Ht HI.
-  assert (Hsafe : forall hid h, find_heap st hid = Some h -> tag_safe (st_heaps st) h).
-  { intros hid h Hh. apply tags_uniform_safe; [exact Ht|].
-    unfold tags_uniform in Ht. rewrite Forall_forall in Ht. apply Ht. eapply find_heap_In; eauto. }
-  destruct o; cbn [step]; unfold with_heap.
+  intros st o Hsafe HI.
+  destruct o; cbn [step]; unfold with_heap; cbn [op_adopter] in Hsafe.
   - destruct (manage (st_arenas st) start size excl large numa) as [[ars a]|] eqn:E; [|exact HI].
     eapply manage_Inv; eauto.
   - destruct (tid =? 0); [exact HI|apply heap_new_Inv, HI].
-  - destruct (find_heap st hid); [apply heap_delete_Inv, HI|exact HI].
+  - destruct (find_heap st hid); [|exact HI]. destruct (heap_absorbs st h); [apply heap_delete_Inv, HI|apply abandoned_collect_Inv, heap_delete_Inv, HI].
   - destruct (find_heap st hid); [apply span_reuse_Inv, HI|exact HI].
   - destruct (find_heap st hid); [apply segment_alloc_Inv, HI|exact HI].
   - apply page_free_Inv, HI.
   - apply page_abandon_Inv, HI.
   - apply abandon_Inv, HI.
   - apply block_free_Inv, HI.
-  - apply thread_done_Inv, HI.
+  - destruct (heap_backing st tid); [apply abandoned_collect_Inv|]; apply thread_done_Inv, HI.
   - destruct (find_heap st hid) eqn:E; [apply attempt_reclaim_Inv; eauto|exact HI].
   - destruct (find_heap st hid) eqn:E; [apply try_reclaim_Inv; eauto|exact HI].
   - destruct (find_heap st hid) eqn:E; [apply reclaim_all_Inv; eauto|exact HI].
   - destruct (find_heap st hid) eqn:E; [apply abandoned_collect_Inv; eauto|exact HI].
+  - apply coalesce_Inv, HI.
+  - destruct (find_heap st hid); [apply block_alloc_Inv, HI|exact HI].
+Qed.
+
+(* ... in particular every operation that is not an adoption preserves Inv unconditionally *)
+Theorem step_Inv_non_adopting : forall st o, op_adopter o = None -> Inv st -> Inv (step st o).
+Proof. intros st o Ho. apply step_Inv_adopter. intros hid h E. rewrite Ho in E. discriminate. Qed.
+
+(* every live heap is tag_safe: a state in which the known finding cannot strike *)
+Definition heaps_tag_safe (st : state) : Prop := forall h, In h (st_heaps st) -> tag_safe (st_heaps st) h.
+
+Theorem step_Inv_tag_safe : forall st o, heaps_tag_safe st -> Inv st -> Inv (step st o).
+Proof.
+  intros st o Hs. apply step_Inv_adopter. intros hid h _ Hh. apply Hs. eapply find_heap_In; eauto.
+Qed.
+
+Lemma tags_uniform_heaps_tag_safe st : tags_uniform st -> heaps_tag_safe st.
+Proof.
+  intros Ht h Hh. apply tags_uniform_safe; [exact Ht|].
+  unfold tags_uniform in Ht. rewrite Forall_forall in Ht. apply Ht, Hh.
+Qed.
+
+Theorem step_Inv_partial : forall st o,
+  tags_uniform st -> Inv st -> Inv (step st o).
+Proof. intros st o Ht. apply step_Inv_tag_safe, tags_uniform_heaps_tag_safe, Ht. Qed.
+
+(* tag_safe is not only sufficient but necessary: whenever _mi_heap_by_tag can hand a page of the
+   adopted segment to a heap t of another arena, there is a state (one abandoned segment suitable
+   for h, one live page with that tag) in which reclaim-on-free by h breaks bound_Inv.  So the gap
+   between the `_partial` theorems and the full statement is exactly the known finding
+   impl:reclaim-by-tag-exclusive. *)
+Definition unsafe_memid (h : heap) : memid :=
+  if (h_arena h =? 0)%Z then MemOther else MemArena (h_arena h) true.
+Definition unsafe_state (heaps : list heap) (h : heap) (tag : N) : state :=
+  mkState [] heaps [mkSeg 1 (unsafe_memid h) 0 0 0 1 false [mkPage None tag true 1] []] 2.
+
+Theorem tag_unsafe_breaks : forall heaps h tag t,
+  heap_by_tag heaps h tag = Some t -> h_arena t <> h_arena h ->
+  heap_memid_is_suitable h (unsafe_memid h) = true /\ bound_Inv (unsafe_state heaps h tag) /\
+  ~ bound_Inv (attempt_reclaim (unsafe_state heaps h tag) h 1 true true).
+Proof.
+  intros heaps h tag t Ht Hne.
+  assert (Hs : heap_memid_is_suitable h (unsafe_memid h) = true).
+  { unfold heap_memid_is_suitable, unsafe_memid. destruct (h_arena h =? 0)%Z eqn:E.
+    - apply Z.eqb_eq in E. rewrite E. reflexivity.
+    - cbn. unfold arena_id_is_suitable. rewrite Z.eqb_refl. try rewrite orb_true_r. reflexivity. }
+  split; [exact Hs|]. split.
+  - constructor; [|constructor]. constructor; [|constructor]. intros h' H; discriminate.
+  - unfold attempt_reclaim, unsafe_state, find_seg. cbn [st_segs find s_id N.eqb Pos.eqb s_owner negb s_memid].
+    rewrite Hs. cbn [negb]. unfold reclaim, update_seg, set_segs. cbn [st_segs st_heaps update_segs s_id N.eqb Pos.eqb].
+    unfold reclaim_seg. cbn [s_pages flat_map reclaim_page p_used p_tag app]. rewrite Ht.
+    intros HB. inversion HB as [|? ? Hseg _]; subst. unfold seg_okP in Hseg.
+    cbn [s_pages s_memid set_owner set_pages] in Hseg. inversion Hseg as [|? ? Hp _]; subst.
+    specialize (Hp t eq_refl). unfold unsafe_memid in Hp. destruct (h_arena h =? 0)%Z eqn:E.
+    + apply Z.eqb_eq in E. cbn in Hp. unfold arena_id_is_suitable, arena_id_none in Hp. cbn in Hp.
+      rewrite E in Hne. destruct (h_arena t) eqn:Et; [congruence|cbn in Hp; discriminate|cbn in Hp; discriminate].
+    + cbn in Hp. unfold arena_id_is_suitable in Hp. cbn in Hp. apply Z.eqb_eq in Hp. congruence.
+Qed.
+
+Lemma tag_safe_b_sound heaps h : tag_safe_b heaps h = true -> tag_safe heaps h.
+Proof.
+  unfold tag_safe_b, tag_safe. rewrite forallb_forall. intros H tag t Ht.
+  pose proof Ht as Ht0. unfold heap_by_tag in Ht. destruct (h_tag h =? tag) eqn:E; [inversion Ht; reflexivity|].
+  apply find_some in Ht as [Hin Hc]. apply andb_prop in Hc as [Hc1 Hc2]. apply N.eqb_eq in Hc2.
+  specialize (H t Hin). rewrite Hc1 in H. cbn [negb orb] in H.
+  destruct (h_arena t =? h_arena h)%Z eqn:Ea; [apply Z.eqb_eq in Ea; exact Ea|]. cbn [orb] in H.
+  rewrite Hc2, Ht0 in H. rewrite Ea in H. discriminate.
 Qed.
 
 (* the heap table: only heap_new / heap_delete / thread_done change it *)
@@ -940,7 +1032,10 @@ Proof.
   - destruct (manage (st_arenas st) start size excl large numa) as [[ars a]|]; exact Ht.
   - destruct (tid =? 0); [exact Ht|]. unfold heap_new. cbn [fst st_heaps]. constructor; [|exact Ht].
     cbn in Ho. apply N.eqb_eq in Ho. destruct (thread_heaps st tid); cbn; [reflexivity|exact Ho].
-  - destruct (find_heap st hid) as [h|]; [|exact Ht]. unfold heap_delete.
+  - destruct (find_heap st hid) as [h|]; [|exact Ht].
+    assert (H0 : Forall (fun c => h_tag c = 0) (st_heaps (heap_delete st h)));
+      [|destruct (heap_absorbs st h); [exact H0|rewrite abandoned_collect_heaps; exact H0]].
+    unfold heap_delete.
     assert (H1 : forall X, st_heaps X = st_heaps st -> Forall (fun c => h_tag c = 0) (st_heaps (if h_backing h then X else
                mkState (st_arenas X) (filter (fun c => negb (heap_eqb c h)) (st_heaps X)) (st_segs X) (st_next X)))).
     { intros X HX. destruct (h_backing h); [rewrite HX; exact Ht|]. cbn. rewrite HX. apply Forall_filter_tags, Ht. }
@@ -955,7 +1050,7 @@ Proof.
   - exact Ht.
   - exact Ht.
   - exact Ht.
-  - cbn. apply Forall_filter_tags, Ht.
+  - destruct (heap_backing st tid); [rewrite abandoned_collect_heaps|]; cbn; apply Forall_filter_tags, Ht.
   - destruct (find_heap st hid) as [h|]; [|exact Ht]. unfold attempt_reclaim.
     destruct (find_seg st sid) as [s|]; [|exact Ht]. destruct (negb (s_owner s =? 0)); [exact Ht|].
     destruct (negb (heap_memid_is_suitable h (s_memid s))); [exact Ht|]. destruct (negb heur); [exact Ht|].
@@ -963,6 +1058,8 @@ Proof.
   - destruct (find_heap st hid) as [h|]; [|exact Ht]. rewrite try_reclaim_heaps. exact Ht.
   - destruct (find_heap st hid) as [h|]; [|exact Ht]. rewrite reclaim_all_heaps. exact Ht.
   - destruct (find_heap st hid) as [h|]; [|exact Ht]. rewrite abandoned_collect_heaps. exact Ht.
+  - exact Ht.
+  - destruct (find_heap st hid) as [h|]; exact Ht.
 Qed.
 
 Lemma Inv_init : Inv init_state.
@@ -978,6 +1075,33 @@ Proof.
   induction ops as [|o t IH]; intros st Ho Ht HI; [split; assumption|].
   cbn in Ho. apply andb_prop in Ho as [Ho1 Ho2]. unfold run. cbn [fold_left].
   apply IH; [exact Ho2|apply step_tags; assumption|apply step_Inv_partial; assumption].
+Qed.
+
+(* histories with arbitrary heap tags: every adoption step is made by a heap that is tag_safe at that moment *)
+Fixpoint adopters_safe (st : state) (ops : list op) : Prop :=
+  match ops with
+  | [] => True
+  | o :: t =>
+    (forall hid h, op_adopter o = Some hid -> find_heap st hid = Some h -> tag_safe (st_heaps st) h) /\
+    adopters_safe (step st o) t
+  end.
+
+Theorem run_Inv_adopter : forall ops st, adopters_safe st ops -> Inv st -> Inv (run st ops).
+Proof.
+  induction ops as [|o t IH]; intros st Hs HI; [exact HI|].
+  destruct Hs as [H1 H2]. unfold run. cbn [fold_left]. apply IH; [exact H2|apply step_Inv_adopter; assumption].
+Qed.
+
+Theorem reachable_Inv_adopter : forall ops, adopters_safe init_state ops ->
+  arenas_wf (st_arenas (run init_state ops)) /\ bound_Inv (run init_state ops) /\ placed_Inv (run init_state ops).
+Proof. intros ops Hs. apply Inv_split. apply run_Inv_adopter; [exact Hs|apply Inv_init]. Qed.
+
+Lemma untagged_adopters_safe : forall ops st, forallb op_untagged ops = true -> tags_uniform st -> adopters_safe st ops.
+Proof.
+  induction ops as [|o t IH]; intros st Ho Ht; [exact I|].
+  cbn in Ho. apply andb_prop in Ho as [Ho1 Ho2]. split.
+  - intros hid h _ Hh. apply (tags_uniform_heaps_tag_safe st Ht). eapply find_heap_In; eauto.
+  - apply IH; [exact Ho2|apply step_tags; assumption].
 Qed.
 
 (* for all histories of operations from the empty state (heaps created with tag 0) *)
@@ -1050,6 +1174,10 @@ Qed.
 
 (* ... in every history (through span reuse, reclaim-on-free, try_reclaim, reclaim_all, collect,
    thread exit, heap delete), heaps created with tag 0 *)
+Theorem exclusive_stays_private_history_adopter : forall ops A,
+  adopters_safe init_state ops -> exclusive_leak_b (run init_state ops) A = false.
+Proof. intros ops A Hs. apply exclusive_no_leak. apply (reachable_Inv_adopter ops Hs). Qed.
+
 Theorem exclusive_stays_private_history : forall ops A,
   forallb op_untagged ops = true -> exclusive_leak_b (run init_state ops) A = false.
 Proof. intros ops A Ho. apply exclusive_no_leak. apply (reachable_Inv_partial ops Ho). Qed.
@@ -1188,7 +1316,7 @@ Definition ex_setup : list op :=
     OSpanReuse 2 1 4 0;                    (* the unbound heap of the same thread: refused *)
     OSegmentAlloc default_opts 2 false MiB32 MiB32 0 511 false (no_oracle (fun i => if i =? 0 then Some 1 else Some 0));  (* segment 5: arena 2 *)
     OSpanReuse 2 1 5 0;
-    OThreadDone 2 ].
+    OThreadDone 2 [] ].
 
 Definition ex_state : state := run init_state ex_setup.
 
@@ -1251,6 +1379,28 @@ Theorem reclaim_tag_unsuitable_refuted_lemma :
     bound_inv_b (step (run init_state ops) o) = false /\
     exclusive_leak_b (step (run init_state ops) o) 1%Z = true.
 Proof. exists ex_tag_ops, ex_tag_step. vm_compute. repeat split; reflexivity. Qed.
+
+(* non-vacuity of the adopter-based theorems: a history WITH a tagged heap.  Heap 6 = mi_heap_new_ex(7, false, none) of
+   the main thread adopts segment 5 (shared arena 2, one live tag-0 page): heap 6 is tag_safe (the tag-0 heap that
+   _mi_heap_by_tag finds is the unbound backing heap), the page moves to heap 1 and the invariants hold. *)
+Definition ex_safe_ops : list op := ex_setup ++ [OHeapNew 1 0%Z 7].
+Definition ex_safe_step : op := OTryReclaim 6 [(5, true)].
+Example ex_tagged_adopter_safe :
+  let st := run init_state ex_safe_ops in
+  let h6 := mkHeap 6 1 0%Z 7 false in
+  find_heap st 6 = Some h6 /\ tag_safe_b (st_heaps st) h6 = true /\ tags_uniform_b st = false /\
+  map s_owner (st_segs (step st ex_safe_step)) = [1; 0] /\
+  map (fun s => map (fun p => match p_heap p with Some h => h_id h | None => 0 end) (s_pages s)) (st_segs (step st ex_safe_step)) = [[1]; [0]] /\
+  bound_inv_b (step st ex_safe_step) = true /\ exclusive_leak_b (step st ex_safe_step) 1%Z = false.
+Proof. vm_compute. repeat split; reflexivity. Qed.
+
+Lemma ex_safe_adopters : adopters_safe init_state (ex_safe_ops ++ [ex_safe_step]).
+Proof.
+  unfold ex_safe_ops, ex_setup. cbn [app adopters_safe op_adopter].
+  repeat (split; [intros hid h E; discriminate E|]).
+  split; [|exact I]. intros hid h E Hh. inversion E; subst hid. apply tag_safe_b_sound.
+  vm_compute in Hh. inversion Hh; subst h. vm_compute. reflexivity.
+Qed.
 
 (* the full (unconditional) preservation statement, and its refutation by that witness *)
 Definition bound_inv_preserved_full : Prop := forall st o, Inv st -> Inv (step st o).
